@@ -431,6 +431,11 @@ mod cli {
             Err(_) => Err(String::from("Value is not a valid unsigned integer")),
         }
     }
+
+    #[cfg(kani)]
+    mod verif_harness {
+        include!(env!("GREX_VERIF_CLI_HARNESS"));
+    }
 }
 
 #[cfg(not(target_family = "wasm"))]
